@@ -352,6 +352,13 @@ func runCKKSPoly(c *eng.Ctx, cfg pcfg) {
 			func(ev *ckks.Evaluator, in *rlwe.Ciphertext) (*rlwe.Ciphertext, error) {
 				return ckpoly.NewEvaluator(p, ev).Evaluate(in, poly, p.DefaultScale())
 			})
+		// an input that has not been relinearised (the evaluator relinearises the powers it derives, not its input)
+		a2 := e.ct(p.MaxLevel(), "", 2)
+		t.c.Count("polynomial_inputs_degree2", 1)
+		runPoly(t, s, "polynomial.Evaluator.Evaluate", "ckks/"+v.name+"/input-degree-2", a2, func() []named { return []named{{"polynomial", &poly}, {"evk", e.evk}} },
+			func(ev *ckks.Evaluator, in *rlwe.Ciphertext) (*rlwe.Ciphertext, error) {
+				return ckpoly.NewEvaluator(p, ev).Evaluate(in, poly, p.DefaultScale())
+			})
 		// the same evaluation from a power basis: X^1 and the polynomial are inputs (the basis caches the higher
 		// powers by design); a basis that was used before gives the result of a new one
 		t.runPatterns("polynomial.Evaluator.EvaluateFromPowerBasis", "ckks/"+v.name, "", []string{"ct-vs-powerbasis", "hist-repeat", "hist-poison1", "hist-derived-shallowcopy"}, func(pat string) ([]named, func() (string, error)) {
@@ -441,6 +448,12 @@ func runBGVPoly(c *eng.Ctx, cfg pcfg) {
 		poly := bgvpoly.NewPolynomial(append([]uint64(nil), v.coeffs...))
 		a := e.ct(p.MaxLevel(), 1, 1)
 		runPoly(t, s, "polynomial.Evaluator.Evaluate", s.name+"/"+v.name, a, func() []named { return []named{{"polynomial", &poly}, {"evk", e.evk}} },
+			func(ev *bgv.Evaluator, in *rlwe.Ciphertext) (*rlwe.Ciphertext, error) {
+				return bgvpoly.NewEvaluator(p, ev).Evaluate(in, poly, p.DefaultScale())
+			})
+		a2 := e.ct(p.MaxLevel(), 1, 2)
+		t.c.Count("polynomial_inputs_degree2", 1)
+		runPoly(t, s, "polynomial.Evaluator.Evaluate", s.name+"/"+v.name+"/input-degree-2", a2, func() []named { return []named{{"polynomial", &poly}, {"evk", e.evk}} },
 			func(ev *bgv.Evaluator, in *rlwe.Ciphertext) (*rlwe.Ciphertext, error) {
 				return bgvpoly.NewEvaluator(p, ev).Evaluate(in, poly, p.DefaultScale())
 			})
